@@ -790,18 +790,21 @@ func (f *Frame) cutLoop(li *loopInfo, st State) State {
 		if phi.Comment == "rangeindex" {
 			// go/ssa's range-over-slice index starts at -1 and is only incremented
 			// (automatic invariant; re-checked on the back edge)
-			vc.Assume(Ge(c, IntLit(-1)))
+			// (all facts about the loop's variables are guarded by the path condition of
+			// reaching the loop: on paths that never get here the bound may be meaningless,
+			// and an unguarded `c < bound` would make those paths vacuous)
+			vc.Assume(Implies(st.PC, Ge(c, IntLit(-1))))
 			li.rangePhis = append(li.rangePhis, phi)
 			// ... and stays below the length it is compared with (k+1 < n is the loop test)
 			if n := rangeBound(phi); n != nil {
 				if nv, ok := f.invariantValue(li, n); ok && nv.Loc == nil {
 					vc.Oblige(f.label, "inv-init", fmt.Sprintf("%d.rangebound", li.ordinal), st.PC, Lt(IntLit(-1), nv.T), "automatic: range bound is non-negative")
-					vc.Assume(Lt(c, nv.T))
+					vc.Assume(Implies(st.PC, Lt(c, nv.T)))
 				}
 			}
 		}
 		for _, fact := range f.typeFacts(phi.Type(), c, heap) {
-			vc.Assume(fact)
+			vc.Assume(Implies(st.PC, fact))
 		}
 	}
 	nst := State{PC: st.PC, Heap: heap}
